@@ -83,6 +83,15 @@ func init() {
 		"math.Inf": func(in *Interp, fn *ssa.Function, args []value) value {
 			return math.Inf(int(in.concInt(args[0], "Inf sign")))
 		},
+		"math.Signbit": func(in *Interp, fn *ssa.Function, args []value) value {
+			switch x := args[0].(type) {
+			case float64:
+				return math.Signbit(x)
+			case intFloat:
+				return in.simpBool(in.tab.Slt(x.t, in.tab.Const(64, 0)))
+			}
+			panic(engineErr("Signbit of %T", args[0]))
+		},
 		"math.NaN":   func(in *Interp, fn *ssa.Function, args []value) value { return math.NaN() },
 		"math.Floor": func(in *Interp, fn *ssa.Function, args []value) value { return in.floatFn(args[0], math.Floor) },
 		"math.Trunc": func(in *Interp, fn *ssa.Function, args []value) value { return in.floatFn(args[0], math.Trunc) },
